@@ -192,82 +192,23 @@ def oracle(ctx, ops, go_out):
     return bad
 
 
-def sample_indices(ops):
-    by = {}
-    for i, o in enumerate(ops):
-        if len(o[0]) < 400:
-            by.setdefault(o[1], []).append(i)
-    return [v[len(v) // 2] for v in by.values()]
+def go_runner(ctx, lines):
+    godrv, goerr = build_go_harness("primdrv", ctx.scratch)
+    if not godrv:
+        return None, goerr
+    rc, out, err = run_lines(godrv, [], lines)
+    if rc != 0:
+        return None, f"driver exit {rc}: {err[-500:]}"
+    return out, ""
 
 
 def run(ctx):
-    with Lock():
-        consts = run_genconsts()
-        thm = check_theorems(PROPS)
-        try:
-            ref = build_refmodel(FAMILY)
-            ref_err = None
-        except RuntimeError as e:
-            ref, ref_err = None, str(e)
-    godrv, goerr = build_go_harness("primdrv", ctx.scratch)
-    ops = gen_ops(ctx)
-    lines = [o[0] for o in ops]
-    go_out = model_out = None
-    if godrv:
-        rc, go_out, err = run_lines(godrv, [], lines)
-        if rc != 0:
-            goerr = f"driver exit {rc}: {err[-500:]}"
-    if ref:
-        rc, model_out, err = run_lines(ref, [], lines)
-        if rc != 0:
-            ref_err = f"model driver exit {rc}: {err[-500:]}"
-    mism = []
-    if go_out is not None and model_out is not None:
-        mism = compare_outputs(ctx, lines, model_out, go_out, "corr:C33:prim")
-    bad = oracle(ctx, ops, go_out) if go_out is not None else []
-
-    # ---- verdicts
-    for op, kind, out in bad[:20]:
-        ctx.violation(f"C33:oracle:{kind}:{trunc(op, 80)}", f"implementation breaks the property ({kind}): {trunc(op, 120)} -> {trunc(out, 120)}",
-                      {"op": op, "kind": kind, "go": out})
-    if not bad:
-        if consts.get("Prim"):
-            ctx.violation("C33:tconst", "translator T-const failed: " + consts["Prim"],
-                          {"theorem": "all of coq/theories/Props/C33.v (constants missing)", "error": consts["Prim"]}, no_input=True)
-        elif not thm["ok"]:
-            ctx.violation("C33:theorem", f"theorem no longer checks: {thm['failing_at']}",
-                          {"theorem_file": thm["props_file"], "failing_at": thm["failing_at"], "log": thm["log_tail"]}, no_input=True)
-        if godrv is None or go_out is None:
-            ctx.violation("C33:go-build", "implementation harness does not build/run: " + trunc(goerr, 400), {"error": goerr}, no_input=True)
-        if ref_err:
-            ctx.violation("C33:model-build", "reference model does not build/run: " + trunc(ref_err, 400), {"error": ref_err}, no_input=True)
-        for i, op, m, g in mism[:20]:
-            ctx.violation(f"C33:corr:{trunc(op, 80)}", f"corr:C33:prim model and implementation differ on {trunc(op, 100)}: model={trunc(m, 80)} go={trunc(g, 80)}",
-                          {"correspondence": "corr:C33:prim", "op": op, "model": m, "go": g}, no_input=True)
-
-    kinds = {}
-    for o in ops:
-        kinds[o[1]] = kinds.get(o[1], 0) + 1
-    verdicts = {}
-    for o in (go_out or []):
-        v = o.split(" ")[0]
-        verdicts[v] = verdicts.get(v, 0) + 1
-    ctx.coverage.update({
-        "obligations": thm["obligations"], "discharged": thm["discharged"],
-        "checker_cmd": "make -f Makefile.coq theories/Props/C33.vo (coqc 8.16.1, full .vo build)",
-        "trusted_base": ["Coq 8.16.1 kernel (coqc; vm_compute used in Examples only)",
-                         "translator tools/genconsts (go/parser; constants of pkg/basictl/basictl.go)",
-                         "extraction with ExtrOcamlBasic only (no Extract Constant), OCaml 4.13.1, ocaml/conv.ml + drv_prim.ml",
-                         "Go harness harness/go/primdrv and the comparison in lib/checks/C33.py",
-                         "axioms: " + (", ".join(thm["axioms"]) if thm["axioms"] else "none (all theorems closed under the global context)")],
-        "theorems": thm["statements"], "assumptions_per_theorem": thm["assumptions"],
-        "evaluations": len(ops), "distinct_nontrivial": len(set(lines)),
-        "rule": "operations generated from VERIF_SEED; every op is run on pkg/basictl (Go, rebuilt from /repo) and on the extracted Coq model; "
-                "distinct = distinct operation lines; all are non-trivial (each exercises a codec on a different input)",
-        "op_kinds": kinds, "go_verdicts": verdicts, "correspondence_mismatches": len(mism), "oracle_failures": len(bad),
-        "samples": [{"op": trunc(lines[i], 100), "go": trunc(go_out[i], 100) if go_out else None,
-                     "model": trunc(model_out[i], 100) if model_out else None}
-                    for i in sample_indices(ops)],
-        "constants": "regenerated from source this run" if not consts.get("Prim") else "FAILED",
-    })
-    ctx.assumptions += ["64-bit platform (int = 64 bit)", "Go code is modelled, not verified: agreement is established on the operations listed under op_kinds"]
+    standard_run(
+        ctx, props=PROPS, family=FAMILY, consts=["Prim"], go_runner=go_runner, gen_ops=gen_ops, oracle=oracle,
+        corr_name="corr:C33:prim",
+        trusted=["translator tools/genconsts (go/parser; constants of pkg/basictl/basictl.go)",
+                 "Go harness harness/go/primdrv and the comparison/oracle in lib/checks/C33.py"],
+        assumptions=["64-bit platform (int = 64 bit)",
+                     "Go code is modelled, not verified: agreement is established on the operations listed under op_kinds"],
+        rule="operations generated from VERIF_SEED; every op is run on pkg/basictl (Go, rebuilt from /repo) and on the extracted Coq model; "
+             "distinct = distinct operation lines; all are non-trivial (each exercises a codec on a different input)")
